@@ -540,6 +540,14 @@ func (o *objectGoReflect) setReflectValue(v reflect.Value) {
 		o.origValue = v
 	}
 	o.methodsValue = v.Addr()
+	// the wrappers handed out for nested structs / arrays are views of this value's fields: they move with it
+	for name, w := range o.valueCache {
+		if fv := o._getField(name); fv.IsValid() {
+			w.setReflectValue(fv)
+		} else {
+			delete(o.valueCache, name)
+		}
+	}
 }
 
 func (o *objectGoReflect) esValue() Value {
